@@ -385,6 +385,14 @@ pub fn run(a: &Args) {
     guarded(&mut r, "C19|constants|unexpected-panic", || "consts".into(), |r| consts(r));
     guarded(&mut r, "C19|codecs|unexpected-panic", || "codecs".into(), |r| codecs(r));
     guarded(&mut r, "C19|Dr7Value|unexpected-panic", || "dr7".into(), |r| dr7(r));
+    // privilege-level field of descriptors (bits 45-46 of the first word, for user and system descriptors alike)
+    for b in [0u64, u64::MAX, 1 << 45, 1 << 46, !(3u64 << 45), 0x0000_8900_0000_0067] {
+        for dpl in 0..4u8 {
+            for sys in [false, true] {
+                guarded(&mut r, "C19|Descriptor::dpl|unexpected-panic", || format!("dpl {:#x} {} {}", b, dpl, sys), |r| crate::c15::dpl_case_tag(r, "C19", b, dpl, sys));
+            }
+        }
+    }
     r.nontrivial = r.evals;
     r.exhaustive = true;
     r.sample("flag Cr4Flags PCID == 1<<17".into());
